@@ -23,6 +23,9 @@ def ctor(K, elems):
 SC_PRELUDE = '''
 #[derive(Clone, Copy)] pub struct Sc(pub f32);
 macro_rules! sc_muladd { ($($S:ty, $A:ty, $B:ty);+) => { $(impl<'a, 'b, 'c> vek::ops::MulAdd<$A, $B> for $S { type Output = Sc; #[inline] fn mul_add(self, a: $A, b: $B) -> Sc { Sc(self.0 * a.0 + b.0) } })+ } }
+/// an iterator that does not know its length (size_hint = (0, None), the default): the emptiness of a source must be found out by pulling
+pub struct Lazy3<T>(pub Option<T>, pub Option<T>, pub Option<T>);
+impl<T> Iterator for Lazy3<T> { type Item = T; fn next(&mut self) -> Option<T> { if let Some(x) = self.0.take() { return Some(x); } if let Some(x) = self.1.take() { return Some(x); } self.2.take() } }
 sc_muladd!{Sc, Sc, Sc; Sc, Sc, &'b Sc; Sc, &'a Sc, Sc; Sc, &'a Sc, &'b Sc; &'c Sc, Sc, Sc; &'c Sc, Sc, &'b Sc; &'c Sc, &'a Sc, Sc; &'c Sc, &'a Sc, &'b Sc}
 '''
 PER_TYPE_RED = ['i8', 'i16', 'i64', 'u8', 'u16', 'u32', 'u64', 'f64'] + ['core::num::Wrapping<%s>' % t for t in ('i8', 'i16', 'i32', 'i64', 'u8', 'u16', 'u32', 'u64')]
@@ -151,6 +154,8 @@ def build_roots(kinds, tier='thorough'):
         add('r_isneg_%s' % K, 'pub fn r_isneg_%s(a: %s) -> bool { a.is_any_negative() }' % (K, VI), kind='anyneg', K=K)
         add('r_allpos_%s' % K, 'pub fn r_allpos_%s(a: %s) -> bool { a.are_all_positive() }' % (K, VI), kind='allpos', K=K)
         add('r_sumiter_%s' % K, 'pub fn r_sumiter_%s(m: [%s; 3]) -> %s { m.iter().copied().sum() }' % (K, VF, VF), kind='sumiter', f='add', K=K)
+        add('r_sumlazy_%s' % K, 'pub fn r_sumlazy_%s(m: [%s; 3]) -> %s { Lazy3(Some(m[0]), Some(m[1]), Some(m[2])).sum() }' % (K, VF, VF), kind='sumiter', f='add', K=K)
+        add('r_prodlazy_%s' % K, 'pub fn r_prodlazy_%s(m: [%s; 3]) -> %s { Lazy3(Some(m[0]), Some(m[1]), Some(m[2])).product() }' % (K, VF, VF), kind='sumiter', f='mul', K=K)
         add('r_proditer_%s' % K, 'pub fn r_proditer_%s(m: [%s; 3]) -> %s { m.iter().copied().product() }' % (K, VF, VF), kind='sumiter', f='mul', K=K)
     return roots, meta
 
@@ -347,4 +352,4 @@ def run(ctx):
             ctx.ob(key + '/paths', False, 'branch-free', w, 'one path', str(e))
     ctx.floor('roots analysed', done, len(roots))
     ctx.floor('vector kinds', len(kinds), 13)
-    ctx.floor('API uses generated (counted at implementation time)', len(roots), 3203)
+    ctx.floor('API uses generated (counted at implementation time)', len(roots), 3229)
